@@ -710,12 +710,25 @@ func (r *resolution) isCurrentPinSatisfying(ctx context.Context, name resolve.Pa
 	// the graph and scan through them. Instead, as long as the criterion's
 	// candidates are correct, it is sufficient to just check the current
 	// pin is listed as a candidate.
+	found := false
 	for _, c := range crit.candidates {
 		if c == currentPin {
-			return true
+			found = true
+			break
 		}
 	}
-	return false
+	if !found {
+		return false
+	}
+	// The pin's dependencies were collected for the extras requested at the
+	// time. A requirement merged since may have asked for more, in which
+	// case the dependencies those extras enable have not been seen yet.
+	for e := range crit.extras {
+		if !crit.pinnedExtras[e] {
+			return false
+		}
+	}
+	return true
 }
 
 // getCriteriaToUpdate gathers criteria for the dependencies of the provided
@@ -790,6 +803,10 @@ func (r *resolution) attemptToPinCriterion(ctx context.Context, name resolve.Pac
 		for n, c := range criteria {
 			s.criteria.Put(n, c)
 		}
+		// Record which extras the pin's dependencies were collected for.
+		pinned, _ := s.criteria.Get(name)
+		pinned.pinnedExtras = crit.extras
+		s.criteria.Put(name, pinned)
 		debugf(r.p.rc, "--------------------------------\n")
 		return nil, nil
 	}
@@ -1027,6 +1044,9 @@ type criterion struct {
 	// extras holds the union of all of the extras requested by each
 	// requirement in information.
 	extras map[string]bool
+	// pinnedExtras holds the extras that were requested when the current
+	// pin of this package was made. It is not modified once set.
+	pinnedExtras map[string]bool
 	// incompatibilities holds concrete versions of this package known not
 	// to work. This is populated during backtracking: when candidates are
 	// discovered not to work they are moved from candidates to
@@ -1087,6 +1107,7 @@ func (c criterion) copy() criterion {
 		informationReqs:    c.informationReqs,
 		informationParents: c.informationParents,
 		extras:             extras,
+		pinnedExtras:       c.pinnedExtras,
 		incompatibilities:  incompatibilities,
 		candidates:         c.candidates,
 	}
